@@ -457,6 +457,7 @@ func (w *World) opMintQuote(op Op) *Event {
 	}
 	since := w.Net.Seq()
 	var q storage.MintQuote
+	w.announce("mintquote", map[string]any{"amt": int(amt % (1 << 30)), "big": "", "lock": lock, "unit": unit})
 	err, pan, msg := w.guard(func() error {
 		var e error
 		q, e = w.Mint.RequestMintQuote(req)
@@ -602,6 +603,7 @@ func (w *World) opMint(op Op) *Event {
 	w.Node.InvoiceStatusErr = op.LnErr
 	since := w.Net.Seq()
 	var sigs cashu.BlindedSignatures
+	w.announce("mint", map[string]any{"q": op.Q, "outs": facts, "ovf": ovf, "sig": sigClass, "lnerr": op.LnErr})
 	err, pan, msg := w.guard(func() error {
 		var e error
 		sigs, e = w.Mint.MintTokens(req)
@@ -630,6 +632,7 @@ func (w *World) opSwap(op Op) *Event {
 	proofs, inFacts := w.buildInputs(op.Ins)
 	msgs, outFacts, ovf, infos := w.buildOutputs(op.Outs)
 	var sigs cashu.BlindedSignatures
+	w.announce("swap", map[string]any{"ins": inFacts, "outs": outFacts, "ovf": ovf})
 	err, pan, msg := w.guard(func() error {
 		var e error
 		sigs, e = w.Mint.Swap(proofs, msgs)
@@ -713,6 +716,7 @@ func (w *World) opMelt(op Op) *Event {
 	w.Node.InvoiceStatusErr = op.LnErr
 	since := w.Net.Seq()
 	var q storage.MeltQuote
+	w.announce("melt", map[string]any{"q": op.Q, "ins": inFacts, "lnerr": op.LnErr})
 	err, pan, msg := w.guard(func() error {
 		var e error
 		q, e = w.Mint.MeltTokens(context.Background(), nut05.PostMeltBolt11Request{Quote: real, Inputs: proofs})
@@ -748,6 +752,7 @@ func (w *World) opPollMelt(op Op) *Event {
 	}
 	since := w.Net.Seq()
 	var q storage.MeltQuote
+	w.announce("pollmelt", map[string]any{"q": op.Q})
 	err, pan, msg := w.guard(func() error {
 		var e error
 		q, e = w.Mint.GetMeltQuoteState(context.Background(), real)
@@ -800,6 +805,7 @@ func (w *World) opCheckState(op Op) *Event {
 	}
 	since := w.Net.Seq()
 	var states []map[string]any
+	w.announce("checkstate", map[string]any{"ys": facts})
 	err, pan, msg := w.guard(func() error {
 		res, e := w.Mint.ProofsStateCheck(ys)
 		if e != nil {
@@ -947,6 +953,7 @@ func (w *World) opKeysets(op Op) *Event {
 }
 
 func (w *World) opRotate(op Op) *Event {
+	w.announce("rotate", map[string]any{"fee": int(op.Fee)})
 	err, pan, msg := w.guard(func() error {
 		_, e := w.Mint.RotateKeyset(op.Fee)
 		return e
@@ -957,9 +964,17 @@ func (w *World) opRotate(op Op) *Event {
 
 func (w *World) opRestart(op Op) *Event {
 	w.Close()
+	w.announce("restart", map[string]any{"rotate": op.Rotate, "fee": int(op.Fee)})
 	err, pan, msg := w.guard(func() error {
 		return w.load(op.Rotate, op.Fee)
 	})
+	if err != nil || pan {
+		// the operator starts the mint again without asking for a rotation
+		fault := w.Fault
+		w.Fault = false
+		w.guard(func() error { return w.load(false, op.Fee) })
+		w.Fault = fault
+	}
 	return w.emit("restart", map[string]any{"rotate": op.Rotate, "fee": int(op.Fee)}, finish(map[string]any{}, err, pan, msg))
 }
 
